@@ -14,8 +14,9 @@ META = {
     "level_text": "Proof (pure rules): APK._format_value completes a component name with the package by Android's rule for every "
                   "name of 0..5 symbolic characters (leading dot -> package+name, no dot -> package.name, else unchanged); "
                   "get_effective_target_sdk_version is target, else min, else 1 (non-numeric -> 1) over all presence/format cases; "
-                  "_get_permission_maxsdk. Bounded (model-based): random manifest models (package, versions, uses-permission with "
-                  "duplicates and maxSdkVersion, the four component kinds with short/absolute names, launcher intent filters, "
+                  "_get_permission_maxsdk. Bounded (model-based): random manifest models (package, versions, uses-permission and "
+                  "uses-permission-sdk-23 with duplicates and (decimal or hexadecimal) maxSdkVersion, decimal / hexadecimal / codename "
+                  "SDK versions, the four component kinds with short/absolute names, launcher intent filters, "
                   "uses-sdk, uses-feature, uses-library) serialised to binary XML by the independent writer and analysed by the real "
                   "APK._apk_analysis and query methods.",
     "trusted": ["independent AXML writer (specs/axmlwriter.py)", "AXMLPrinter (C26) and lxml", "zip reader replaced by a stub holding "
